@@ -151,17 +151,16 @@ class Layer(object):
                 if n == "submit" or n.startswith("submit_"):
                     self.submit_methods.append(m)
         cands = []
+        own = set(m.key for c in cls.mro() if isinstance(c, ClassInfo) for m in c.methods.values())
         for m in list(cls.methods.values()) + ([self.loop] if self.loop is not None and self.loop.owner is None else []):
             try:
-                ps, it = ctx.paths(m, cls if m.owner is not None else None, depth=0)
+                ps, it = ctx.paths(m, cls if m.owner is not None else None, depth=3, inline=lambda callee, ev, path: callee.key in own and callee.name != "__init__")
             except AnalysisError:
                 continue
             for p in ps:
                 for e in p.calls():
-                    if e.fn is not m:
-                        continue
                     r = q.recv(e)
-                    if q.call_name(e) == "submit" and isinstance(r, tuple) and r[0] == "attr" and r[2] == "_delegate":
+                    if e.fn is m and q.call_name(e) == "submit" and isinstance(r, tuple) and r[0] == "attr" and r[2] == "_delegate":
                         cands.append(m)
                     if q.call_name(e) == "add_done_callback" and isinstance(r, tuple) and r[0] == "call" and isinstance(r[1], tuple) and r[1][0] == "attr" and r[1][2] == "submit" and e.d["args"]:
                         cb = e.d["args"][0]
